@@ -3,11 +3,13 @@
    (file,line) -> comment-group indexes, Doc, Comment, priorCommentLines, commentLinesFrom).
    Definitions only.  The model follows the Go loops and state variables.
 
-   Two repairs are switchable so that the refutations for the code as it was stay checkable:
+   Three repairs are switchable so that the refutations for the code as it was stay checkable:
      fix_trail = false : every *ast.CommentGroup reached by the walk - trailing ones included -
                          is entered in the leading index (package.go:179-180 before the fix);
      fix_empty = false : a comment group whose Text() is empty yields one empty line
-                         (strings.Split("", "\n") = [""], package.go:401 before the fix).
+                         (strings.Split("", "\n") = [""], package.go:401 before the fix);
+     fix_kv = false    : splitKV ranges over runes and re-encodes them (bytes that are not valid
+                         UTF-8 come back as U+FFFD, comments.go:49-69 before the fix).
 
    External components (go/parser's Doc/Comment attachment, the order of ast.Inspect,
    CommentGroup.Text) are input data: an [event] list in walk order, groups carrying the
@@ -46,19 +48,73 @@ Fixpoint one_of (markers : bytes) (b : ascii) : bool :=
 (* the separator test of splitKV:  c == '=' || c == ' ' *)
 Definition is_sep (c : ascii) : bool := Ascii.eqb c c_eq || is_sp c.
 
-(* comments.go:49-69: two buffers and the forValue flag.  The Go loop ranges over runes and
-   re-encodes them with WriteRune; '=' and ' ' are ASCII and every byte of a multi-byte
-   sequence is >= 0x80, so on valid UTF-8 the byte loop below is exactly the rune loop
-   (invalid bytes would come back as U+FFFD: outside the modelled domain, see notes/C12.md). *)
-Fixpoint split_kv_loop (s k v : bytes) (for_value : bool) : bytes * bytes :=
+(* splitKV after the repair: strings.IndexAny(line, "= "), then line[:i] and line[i+1:]
+   (i < len(line), so neither slice expression can fail) *)
+Fixpoint index_sep (s : bytes) : option nat :=
+  match s with
+  | [] => None
+  | c :: r => if is_sep c then Some 0 else option_map S (index_sep r)
+  end.
+Definition split_kv_cut (s : bytes) : bytes * bytes :=
+  match index_sep s with
+  | Some i => (firstn i s, skipn (S i) s)
+  | None => (s, [])
+  end.
+
+(* splitKV before the repair, comments.go:49-69: two buffers, the forValue flag, a loop over the
+   RUNES of the line, each written back with WriteRune.  Go's decoding of the rune at the head of
+   c :: rest: the number of continuation bytes it takes, or None when the byte does not start a
+   valid sequence (then the rune is U+FFFD and one byte is consumed). *)
+Definition in_range (lo hi : N) (c : ascii) : bool :=
+  let n := N_of_ascii c in ((lo <=? n) && (n <=? hi))%N.
+Definition rune_extra (c : ascii) (rest : bytes) : option nat :=
+  let n := N_of_ascii c in
+  if (n <? 128)%N then Some 0
+  else if (n <? 194)%N then None
+  else if (n <? 224)%N then
+    match rest with
+    | c1 :: _ => if in_range 128 191 c1 then Some 1 else None
+    | _ => None
+    end
+  else if (n <? 240)%N then
+    let lo := if (n =? 224)%N then 160%N else 128%N in
+    let hi := if (n =? 237)%N then 159%N else 191%N in
+    match rest with
+    | c1 :: c2 :: _ => if in_range lo hi c1 && in_range 128 191 c2 then Some 2 else None
+    | _ => None
+    end
+  else if (n <? 245)%N then
+    let lo := if (n =? 240)%N then 144%N else 128%N in
+    let hi := if (n =? 244)%N then 143%N else 191%N in
+    match rest with
+    | c1 :: c2 :: c3 :: _ =>
+        if in_range lo hi c1 && in_range 128 191 c2 && in_range 128 191 c3 then Some 3 else None
+    | _ => None
+    end
+  else None.
+
+Definition fffd : bytes := [ascii_of_N 239; ascii_of_N 191; ascii_of_N 189].
+
+(* [pending] = continuation bytes of the current (valid) rune still to be copied *)
+Fixpoint split_kv_runes (s : bytes) (pending : nat) (k v : bytes) (for_value : bool) : bytes * bytes :=
   match s with
   | [] => (k, v)
   | c :: r =>
-      if negb for_value && is_sep c then split_kv_loop r k v true
-      else if for_value then split_kv_loop r k (v ++ [c]) true
-      else split_kv_loop r (k ++ [c]) v false
+      match pending with
+      | S p =>
+          if for_value then split_kv_runes r p k (v ++ [c]) true
+          else split_kv_runes r p (k ++ [c]) v false
+      | O =>
+          if negb for_value && is_sep c then split_kv_runes r 0 k v true
+          else
+            let '(out, p) := match rune_extra c r with Some p => ([c], p) | None => (fffd, 0) end in
+            if for_value then split_kv_runes r p k (v ++ out) true
+            else split_kv_runes r p (k ++ out) v false
+      end
   end.
-Definition split_kv (s : bytes) : bytes * bytes := split_kv_loop s [] [] false.
+
+Definition split_kv (fix_kv : bool) (s : bytes) : bytes * bytes :=
+  if fix_kv then split_kv_cut s else split_kv_runes s 0 [] [] false.
 
 (* map[string][]string as an association list;  tags[k] = append(tags[k], v) *)
 Definition tagmap := list (bytes * list bytes).
@@ -77,7 +133,7 @@ Definition default_markers : bytes := [c_plus; c_at].
 
 (* comments.go:34-44, one iteration per line; line[0] is guarded by len(line) != 0 and
    line[1:] is taken on a non-empty line only, so no access can fail. *)
-Fixpoint extract_loop (markers : bytes) (lines : list bytes) (tags : tagmap) (others : list bytes)
+Fixpoint extract_loop (fix_kv : bool) (markers : bytes) (lines : list bytes) (tags : tagmap) (others : list bytes)
   : tagmap * list bytes :=
   match lines with
   | [] => (tags, others)
@@ -86,16 +142,16 @@ Fixpoint extract_loop (markers : bytes) (lines : list bytes) (tags : tagmap) (ot
       match line with
       | c :: payload =>
           if one_of markers c then
-            let '(k, v) := split_kv payload in
-            extract_loop markers rest (tag_append k v tags) others
-          else extract_loop markers rest tags (others ++ [line])
-      | [] => extract_loop markers rest tags (others ++ [line])
+            let '(k, v) := split_kv fix_kv payload in
+            extract_loop fix_kv markers rest (tag_append k v tags) others
+          else extract_loop fix_kv markers rest tags (others ++ [line])
+      | [] => extract_loop fix_kv markers rest tags (others ++ [line])
       end
   end.
 
 (* comments.go:27-47 *)
-Definition extract_tags (markers : bytes) (lines : list bytes) : tagmap * list bytes :=
-  extract_loop (if is_nil markers then default_markers else markers) lines [] [].
+Definition extract_tags (fix_kv : bool) (markers : bytes) (lines : list bytes) : tagmap * list bytes :=
+  extract_loop fix_kv (if is_nil markers then default_markers else markers) lines [] [].
 
 (* ------------------------------------------------------------------ *)
 (* package.go: commentLinesFrom                                        *)
@@ -306,7 +362,7 @@ Definition lines_of (fix_empty : bool) (g : option group) : list bytes :=
   end.
 
 (* Doc and Comment, package.go:365-371 *)
-Definition doc_of (fix_empty : bool) (ix : index) (file : N) (line : Z) : tagmap * list bytes :=
-  extract_tags [] (lines_of fix_empty (prior ix file line (-1))).
+Definition doc_of (fix_empty fix_kv : bool) (ix : index) (file : N) (line : Z) : tagmap * list bytes :=
+  extract_tags fix_kv [] (lines_of fix_empty (prior ix file line (-1))).
 Definition comment_of (fix_empty : bool) (ix : index) (file : N) (line : Z) : list bytes :=
   lines_of fix_empty (prior ix file line 0).
